@@ -1,4 +1,5 @@
 """C14 — privileged and internal entry points reject every other caller (DESIGN §5 C14)."""
+import re
 from .. import common, roles
 from ..roles import P_, param, INFO_TY, ENV_TY, AnchorMissing
 
@@ -215,6 +216,15 @@ def run(ctx):
         if h is not None and fn.path == h[3].path:
             own = [i - 1 for i in range(1, fn.body.arg_count + 1) if fn.body.names.get(i) == "owner" or fn.body.locals[i]["ty"] == "std::option::Option<std::string::String>"]
             allowed = {"load(%s).owner" % ctx.N.FACTORY_CONFIG} | {"canon(%s)" % P_(fn, i) for i in own}
+            # `new.unwrap_or(stored)` is the same choice written as one expression: or(a;b) -> {a, b}
+            flat_ = set()
+            for r_ in owner_roots:
+                m_ = re.match(r"^or\((.*);(.*)\)$", r_)
+                if m_ and "or(" not in m_.group(1) and "or(" not in m_.group(2):
+                    flat_ |= set(m_.group(1).split("|")) | set(m_.group(2).split("|"))
+                else:
+                    flat_.add(r_)
+            owner_roots = flat_
             if not owner_roots <= allowed or not any(r.startswith("canon(") for r in owner_roots):
                 r5.fail("C14.R5:update:owner-origin", fn.path, where, "saved owner originates from %s, expected stored owner or canonicalize(new owner)" % sorted(owner_roots))
             else:
